@@ -18,6 +18,14 @@ import (
 	ibckeeper "github.com/cosmos/ibc-go/v7/modules/core/keeper"
 	"github.com/medibloc/panacea-core/v2/app/keepers"
 	"github.com/medibloc/panacea-core/v2/app/upgrades/v2_0_5"
+	"github.com/medibloc/panacea-core/v2/x/aol"
+	aolkeeper "github.com/medibloc/panacea-core/v2/x/aol/keeper"
+	"github.com/medibloc/panacea-core/v2/x/burn"
+	burnkeeper "github.com/medibloc/panacea-core/v2/x/burn/keeper"
+	"github.com/medibloc/panacea-core/v2/x/did"
+	didkeeper "github.com/medibloc/panacea-core/v2/x/did/keeper"
+	"github.com/medibloc/panacea-core/v2/x/pnft"
+	pnftkeeper "github.com/medibloc/panacea-core/v2/x/pnft/keeper"
 	aoltypes "github.com/medibloc/panacea-core/v2/x/aol/types"
 	burntypes "github.com/medibloc/panacea-core/v2/x/burn/types"
 	didtypes "github.com/medibloc/panacea-core/v2/x/did/types"
@@ -138,4 +146,37 @@ func vHarnessUpgradeHandlersRunMigrations() {
 	}
 	vCheck(n >= 4, "C19: handlers of the descriptors were executed")
 	vCover("handlers executed")
+}
+
+
+// C19 "the block is processed without halting, module versions are recorded": x/upgrade's
+// RunMigrations walks every module from its recorded version to ConsensusVersion() and panics on
+// the first missing step, so each custom module must register exactly the migrations
+// 1 -> 2 -> ... -> ConsensusVersion() (the real RegisterServices / ConsensusVersion are executed
+// against a recording Configurator).
+type vVersioned interface {
+	ConsensusVersion() uint64
+	RegisterServices(module.Configurator)
+}
+
+func vMigrationsOf(name string, m vVersioned) {
+	cfg := vConfigurator()
+	m.RegisterServices(cfg) // a panic here (refused registration) is a violation too
+	cv := m.ConsensusVersion()
+	vCheck(cv >= 1 && cv <= 16, "C19: a module's consensus version is at least 1")
+	if cv < 1 || cv > 16 {
+		return
+	}
+	for from := uint64(1); from < cv; from++ {
+		vCheck(vMigrationRegistered(name, from), "C19: a migration is registered for every step from version 1 up to the module's consensus version (else the upgrade block panics)")
+	}
+	vCheck(uint64(vMigrationCount(name)) == cv-1, "C19: no migration is registered from the current or a future consensus version")
+}
+
+func vHarnessModuleMigrationsComplete() {
+	vMigrationsOf(aoltypes.ModuleName, aol.NewAppModule(nil, aolkeeper.Keeper{}))
+	vMigrationsOf(didtypes.ModuleName, did.NewAppModule(nil, didkeeper.Keeper{}))
+	vMigrationsOf(pnfttypes.ModuleName, pnft.NewAppModule(nil, &pnftkeeper.Keeper{}))
+	vMigrationsOf(burntypes.ModuleName, burn.NewAppModule(nil, burnkeeper.Keeper{}))
+	vCover("module migrations evaluated")
 }
